@@ -14,6 +14,8 @@
 //        them): SubWordValue and MulShiftedValue before PackedEncoding (C12: establishes packed_lift's `seg_ok`),
 //        the hash recognisers before MappingIndex / DynamicArrayIndex, StorageSlots after MappingIndex,
 //        DynamicArrayIndex and PackedEncoding (C05: slot nodes are made on already-lifted keys), no pass twice.
+//   C05  `add` does nothing when a pass of that type is in the list, otherwise appends at the END; the passes that
+//        were there are unchanged (the TypeId bookkeeping is behind R-CALL stand-ins).
 //   C01  no panic in any of the functions (index in range, no arithmetic overflow of the loop counter).
 // Everything marked A-... is an ASSUMPTION. What is not decided: the //@dropped lines at the end.
 use vstd::prelude::*;
@@ -150,6 +152,7 @@ fn vx_pass_at(s: &mut Vec<Box<dyn Lift>>, i: usize) -> (r: &mut Box<dyn Lift>)
 { unimplemented!() }
 
 
+// R-SIG on `add`: `P: Lift` is written `P: Lift + 'static` — in the repository `Lift: Any` gives that; the supertrait is dropped here.
 // A-STD / A-CALLEE (R-CALL stand-ins of `add`): `Any::type_id` tells pass types apart — `id_of` is the TypeId of a pass
 // kind, different kinds have different ids (`kind_of_id` is its inverse); `ids` = the ids of the list's elements in
 // order (iter().map(type_id).collect()); `Vec::contains`; `Box::new` + the unsizing coercion keeps the pass's kind.
@@ -158,7 +161,7 @@ pub uninterp spec fn kind_of_id(t: TypeId) -> PassKind;
 pub open spec fn has_kind(ps: Seq<Box<dyn Lift>>, k: PassKind) -> bool { exists|i: int| 0 <= i < ps.len() && (#[trigger] ps[i]).kind() == k }
 #[verifier::external_body]
 fn vx_ids(s: &Vec<Box<dyn Lift>>) -> (r: Vec<TypeId>)
-    ensures r.len() == s.len(), forall|i: int| 0 <= i < s.len() ==> #[trigger] r[i] == id_of(s[i].kind()),
+    ensures r.len() == s.len(), forall|i: int| 0 <= i < s.len() ==> #[trigger] r[i] == id_of(s[i].kind()), forall|i: int| 0 <= i < s.len() ==> r[i] == id_of((#[trigger] s[i]).kind()),
 { unimplemented!() }
 #[verifier::external_body]
 fn vx_type_id<P: Lift>(p: &P) -> (r: TypeId)
@@ -288,6 +291,11 @@ passes
 //@end
 
 //@extract file=src/tc/lift/mod.rs path="impl LiftingPasses|fn add" props=C05,C01
+//@rw R-SIG
+//@old
+add<P: Lift>
+//@new
+add<P: Lift + 'static>
 //@rw R-CALL
 //@old
 self.passes.iter().map(|p| p.as_ref().type_id()).collect()
@@ -313,7 +321,7 @@ vx_box(pass)
             has_kind(old(self).list(), pass.kind()) ==> final(self).list() == old(self).list(),  //@ob C05.lift_passes.add.no_op_when_a_pass_of_that_kind_is_present
             !has_kind(old(self).list(), pass.kind()) ==> final(self).list().len() == old(self).list().len() + 1
                 && final(self).list().last().kind() == pass.kind()
-                && final(self).list().drop_last() == old(self).list(),                            //@ob C05.lift_passes.add.otherwise_appended_at_the_end_existing_passes_unchanged
+                && final(self).list().drop_last() =~= old(self).list(),                           //@ob C05.lift_passes.add.otherwise_appended_at_the_end_existing_passes_unchanged
 //@end
 
 //@extract file=src/tc/lift/mod.rs path="impl LiftingPasses|fn run" props=C17,C05,C01
@@ -383,6 +391,8 @@ let mut vx_i: usize = 0;
 //@end
 }
 
+//@dropped LiftingPasses::add: `self.passes.iter().map(type_id).collect()`, `pass.type_id()`, `ids.contains(..)`, `Box::new(pass)` + unsizing are R-CALL stand-ins (TypeId modelled as an injective image of the ghost pass kind); the control flow (early return / push at the end) is the repository's
+//@dropped LiftingPasses::run: renaming the loop variable or changing the loop form loses the R-FOREACH anchor (status undecided, never a false ok); the `mut value` parameter is re-bound (R-SIG)
 //@dropped LiftingPasses::get / get_mut (iterator find + downcast through Any): not extracted
 //@dropped the body of each pass constructor `X::new()` (`Box::new(Self)`; the hash table of StorageSlotHashes) and the unsizing coercion Box<X> -> Box<dyn Lift> inside `vec![..]`: stand-ins tagged with the pass kind (A-CALLEE)
 //@dropped what the six passes whose `run` lives in other units do is not connected here: `run` is decided against the interface (`fails` / `image` / `error` of whatever passes are in the list); that SubWordValue/MulShiftedValue ESTABLISH packed_lift's `seg_ok` and that StorageSlots only wraps already-lifted keys is the business of units arith_sites, packed_lift, guards — here only the ORDER they rely on
